@@ -83,9 +83,16 @@ func execRun(t *testing.T, prop string, sc *Scenario, seed uint64, vals []uint32
 	defer func() {
 		// a panic that escaped the bubble (e.g. synctest deadlock report) is a harness problem
 		if r := recover(); r != nil {
+			stack := string(debug.Stack())
 			res = &RunResult{Seed: seed, Scenario: sc.Name, Viol: &simkit.Violation{
-				Property: "HARNESS", Oracle: "panic", Detail: fmt.Sprintf("%v\n%s", r, debug.Stack()), Fingerprint: "HARNESS/panic",
+				Property: "HARNESS", Oracle: "panic", Detail: fmt.Sprintf("%v\n%s", r, stack), Fingerprint: "HARNESS/panic",
 			}}
+
+			// a panic raised inside the repository's code while the scheduler evaluates an oracle (e.g. a
+			// resolution) is a violation of the property being checked, not a harness problem
+			if panicInRepo(stack) {
+				res.Viol = &simkit.Violation{Property: prop, Oracle: "panic", Detail: fmt.Sprintf("repository code panicked: %v\n%s", r, stack), Fingerprint: prop + "/panic"}
+			}
 		}
 	}()
 
@@ -141,6 +148,31 @@ func startWatchdog(limit time.Duration) {
 			}
 		}
 	}()
+}
+
+// panicInRepo: is the innermost non-runtime frame of the panicking goroutine in the repository under test?
+func panicInRepo(stack string) bool {
+	i := strings.Index(stack, "panic(")
+	if i < 0 {
+		return false
+	}
+
+	for _, line := range strings.Split(stack[i:], "\n")[1:] {
+		line = strings.TrimSpace(line)
+
+		switch {
+		case strings.HasPrefix(line, "runtime.") || strings.HasPrefix(line, "runtime/") || strings.HasPrefix(line, "/") || line == "" ||
+			strings.HasPrefix(line, "panic(") || strings.HasPrefix(line, "reflect.") || strings.HasPrefix(line, "encoding/") || strings.HasPrefix(line, "sort.") ||
+			strings.HasPrefix(line, "strings.") || strings.HasPrefix(line, "bytes."):
+			continue
+		case strings.HasPrefix(line, "github.com/trustbloc/sidetree-core-go/"):
+			return true
+		default:
+			return false
+		}
+	}
+
+	return false
 }
 
 // ReplayFile is the self-contained description of a failing run.
